@@ -328,6 +328,9 @@ func (r realmModel) lines(l layout) []string {
 		nested = []string{"  auth_to_local_names = {", "     fred = freddy", "  }"}
 	case "other-empty":
 		nested = []string{"  pkinit_anchors_block = {", "  }"}
+	case "v4-single-line":
+		// the unsupported v4_* relations also come as plain one-line relations
+		nested = []string{"  v4_realm = LEGACY.REALM", "  v4_instance_convert = mit"}
 	}
 	if nested != nil {
 		at := r.NestedAt
@@ -506,7 +509,7 @@ func realmsCheck(c *engine.Ctx, ls []layout, evals *int64) {
 		}
 	}
 	// nested blocks of each kind at each position
-	for _, kind := range []string{"v4", "other", "other-empty"} {
+	for _, kind := range []string{"v4", "other", "other-empty", "v4-single-line"} {
 		for at := 0; at <= 4; at++ {
 			models = append(models, realmModel{Name: "NESTED.COM", KDC: srv[:2], Admin: portify(srv[:2], "749"), Nested: kind, NestedAt: at})
 		}
@@ -784,6 +787,41 @@ func kdcLookup(c *engine.Ctx, evals *int64) {
 				continue
 			}
 			c.Distinct("kdcs/realm-name/" + name)
+		}
+	}
+	// two realms whose names differ only in letter case (realm names are case sensitive): each lookup gets its own
+	// realm's servers, in either file order, and a spelling that is not configured gets an error
+	for _, order := range [][]string{{"EXAMPLE.COM", "example.com"}, {"example.com", "EXAMPLE.COM"}} {
+		srv := map[string]string{"EXAMPLE.COM": "upper", "example.com": "lower"}
+		text := "[libdefaults]\n default_realm = EXAMPLE.COM\n[realms]\n"
+		for _, r := range order {
+			text += " " + r + " = {\n  kdc = k." + srv[r] + ".test\n  admin_server = a." + srv[r] + ".test\n }\n"
+		}
+		cf, err, pn := load(text)
+		if err != nil || pn != "" {
+			engine.FailValid("config.NewFromString(two realms differing in case)", fmt.Errorf("%v %s", err, pn))
+		}
+		for _, q := range []string{"EXAMPLE.COM", "example.com", "Example.Com", "EXAMPLE.com"} {
+			*evals++
+			vrand.Script(nil)
+			rec := map[string]interface{}{"realms_in_file_order": order, "lookup": q}
+			var cnt, cnt2 int
+			var m, m2 map[int]string
+			var e1, e2 error
+			if pn := safe(func() { cnt, m, e1 = cf.GetKDCs(q, false); cnt2, m2, e2 = cf.GetKpasswdServers(q, false) }); pn != "" {
+				c.Violate("kdcs", "getkdcs:panic:realms-differing-in-case", map[string]interface{}{"panic": pn}, rec)
+				continue
+			}
+			if s, ok := srv[q]; ok {
+				if e1 != nil || permOf(cnt, m, []string{"k." + s + ".test:88"}) != "" || e2 != nil || permOf(cnt2, m2, []string{"a." + s + ".test:464"}) != "" {
+					c.Violate("kdcs", "getkdcs:servers-of-another-realm:realms-differing-in-case", map[string]interface{}{"kdcs": m, "kpasswd": m2, "err": fmt.Sprint(e1, e2)}, rec)
+					continue
+				}
+			} else if e1 == nil || e2 == nil {
+				c.Violate("kdcs", "getkdcs:unknown-realm-no-error:spelling-in-another-case", map[string]interface{}{"kdcs": m, "kpasswd": m2}, rec)
+				continue
+			}
+			c.Distinct("kdcs/case/" + order[0] + "/" + q)
 		}
 	}
 	// unknown realm: an error, not a panic
